@@ -144,6 +144,7 @@ func runC06(r *Run) {
 	c06CancelInsideCloseSend(r)
 	c06ConcurrentHeaderAndSend(r)
 	c06ResetWithoutOpen(r)
+	c06UnknownMethodStream(r)
 	if r.Want("resetrace") {
 		c06ResetVersusTrailer(r)
 	}
